@@ -1,7 +1,7 @@
 (* C26 -- property theorems (statements only) over the definitions regenerated from /repo *)
 From Coq Require Import Reals List.
 From Coquelicot Require Import Coquelicot.
-From C26 Require Import C26Spec C26_gen C26Proofs C26ProofsJ C26ProofsJ2 C26ProofsB C26ProofsB2 C26ProofsB3 C26ProofsJOdd.
+From C26 Require Import C26Spec C26_gen C26Proofs C26ProofsJ C26ProofsJ2 C26ProofsB C26ProofsB2 C26ProofsB3 C26ProofsJOdd C26ProofsM C26ProofsJM.
 Import ListNotations.
 Local Open Scope R_scope.
 
@@ -53,3 +53,11 @@ Print Assumptions C26_bergstromboyce_inverts_Langevin.
 Theorem C26_jedynak_odd : odd jedynak_f.
 Proof. exact jedynak_odd. Qed.
 Print Assumptions C26_jedynak_odd.
+
+(* Jedynak 2015: derivative on the negative side and strictly increasing on [-0.999, 0.999] (mean value theorem on each side, oddness, f(0) = 0) *)
+Theorem C26_jedynak_derivative_negative_side : value_and_derivative jedynak_f (fun y => jedynak_fd y) (fun y => - (999 / 1000) <= y < 0).
+Proof. exact jedynak_vd_neg. Qed.
+Print Assumptions C26_jedynak_derivative_negative_side.
+Theorem C26_jedynak_increasing : strictly_increasing_on jedynak_f (fun y => - (999 / 1000) <= y <= 999 / 1000).
+Proof. exact jedynak_increasing. Qed.
+Print Assumptions C26_jedynak_increasing.
